@@ -223,7 +223,9 @@ class Program:
         if root == "operator":
             return _ModuleNS({k: v for k, v in vars(operator).items() if not k.startswith("_")})
         if root == "itertools":
-            return _ModuleNS({"chain": itertools.chain, "product": itertools.product})
+            from .catalogue import _bounded_count
+
+            return _ModuleNS({"chain": itertools.chain, "product": itertools.product, "count": _bounded_count})
         if root == "re":
             return _ModuleNS({k: getattr(re, k) for k in ("compile", "sub", "match", "fullmatch", "search", "escape", "split", "findall")})
         if root == "dataclasses":
